@@ -52,7 +52,7 @@ func VerifMain(args []string) int {
 		return 2
 	}
 	if args[0] != "live" {
-		simWatchdog(60 * time.Second)
+		simWatchdog(240 * time.Second)
 	}
 	return fn(args[1:])
 }
